@@ -4,6 +4,8 @@ mod carriers;
 mod explore;
 mod scan;
 mod mon;
+#[cfg(feature = "std")]
+mod poll;
 mod props;
 mod report;
 mod spec;
